@@ -155,9 +155,33 @@ def sc_not(a):
     return (not a) if isinstance(a, bool) else z3.Not(a)
 
 
+class NegGuarded:
+    """-inf-or-finite scalar (scores masked with -inf): -inf when `ninf` holds, else `val`. Only softmax consumes it."""
+
+    def __init__(self, ninf, val):
+        self.ninf, self.val = ninf, val
+
+
+def _is_ninf(x):
+    return is_inf(x) and x < 0
+
+
 def sc_where(c, a, b):
     if isinstance(c, bool):
         return a if c else b
+    if _is_ninf(a) or _is_ninf(b) or isinstance(a, NegGuarded) or isinstance(b, NegGuarded):
+        def split(x):
+            if isinstance(x, NegGuarded):
+                return x.ninf, x.val
+            if _is_ninf(x):
+                return True, 0
+            if is_inf(x) or isinstance(x, Guarded):
+                raise Unsupported("+inf and -inf mixed in one term")
+            return False, x
+        na, va = split(a)
+        nb, vb = split(b)
+        n = z3.simplify(z3.If(c, z3.BoolVal(na) if isinstance(na, bool) else na, z3.BoolVal(nb) if isinstance(nb, bool) else nb))
+        return NegGuarded(n, sc_where(c, va, vb))
     if is_inf(a) or is_inf(b):
         return Guarded.make(c, a, b)
     if isinstance(a, Guarded) or isinstance(b, Guarded):
@@ -1371,3 +1395,45 @@ FUNCS.update({
 })
 for _k in ("full", "zeros", "ones", "empty(arbitrary contents)", "arange", "stack", "cat", "where"):
     _c(_k)
+
+
+# -- softmax: assumed contract ---------------------------------------------------------------------------------------------
+_SM = {}
+
+
+def f_softmax(I, t, dim=-1, **k):
+    """softmax along dim. Contract: weights >= 0; they sum to 1 when some score is not -inf; a weight is 0 where the
+    score is -inf; the weights are a FUNCTION of (which scores are -inf, the finite scores) - uninterpreted otherwise."""
+    d = _dim(t, dim)
+    moved = np.moveaxis(t.a, d, -1)
+    out = np.empty(moved.shape, dtype=object)
+    T = moved.shape[-1]
+    if T not in _SM:
+        _SM[T] = [z3.Function("softmax_%d_of_%d" % (j, T), *([z3.BoolSort()] * T + [z3.RealSort()] * T + [z3.RealSort()])) for j in range(T)]
+    for pos in np.ndindex(*moved.shape[:-1]):
+        ms, es = [], []
+        for j in range(T):
+            x = moved[pos + (j,)]
+            if isinstance(x, NegGuarded):
+                m, v = x.ninf, x.val
+            elif _is_ninf(x):
+                m, v = True, 0
+            elif is_inf(x) or isinstance(x, Guarded):
+                raise Unsupported("softmax of +inf")
+            else:
+                m, v = False, x
+            m = z3.BoolVal(m) if isinstance(m, bool) else m
+            v = to_z3(v)
+            v = z3.ToReal(v) if z3.is_int(v) else v
+            ms.append(m)
+            es.append(z3.If(m, z3.RealVal(0), v))
+        ws = [z3.If(ms[j], z3.RealVal(0), _SM[T][j](*(ms + es))) for j in range(T)]
+        I.ex.assume(z3.And([w >= 0 for w in ws] + [z3.Implies(z3.Not(z3.And(ms)), z3.Sum(ws) == 1)]))
+        for j in range(T):
+            out[pos + (j,)] = ws[j]
+    return CT(np.moveaxis(out, -1, d), "float")
+
+
+FUNCS["torch.nn.functional.softmax"] = f_softmax
+METHODS["softmax"] = f_softmax
+_c("softmax: non-negative weights summing to one, zero at -inf scores, a function of the finite scores and the -inf pattern")
